@@ -51,6 +51,20 @@ static const int fillers[NFILL] = { 0, 5, 13 };
 static int nnf(int tier)  { return tier ? 3 : 2; }
 static int nnet(int tier) { return tier ? 3 : 1; }
 
+/*
+ * Part M: tabulated standards whose table has as many points as the
+ * calibration and the same first and last frequency, with the points
+ * between elsewhere; three and four calibration frequencies.
+ */
+static int g_m_nf;	/* > 0: part M, this many frequencies */
+static long count_m(int tier)
+{
+    long n = 0;
+    for (int t = 0; t < 8; ++t)
+	n += (long)ndims(tier, types[t]);
+    return n * NRECIPE * 2;
+}
+
 static long count_main(int tier)
 {
     long n = 0;
@@ -177,13 +191,23 @@ out:
 
 static long count(int tier)
 {
-    return count_main(tier) + NPARTL;
+    return count_main(tier) + NPARTL + count_m(tier);
 }
 
 static void run(int tier, long idx, vf_result *r)
 {
     static cs_scenario sc;
-    if (idx >= count_main(tier)) {
+    g_m_nf = 0;
+    if (idx >= count_main(tier) + NPARTL) {
+	/* part M: the main case with tabulated standards, first handle 3,
+	   network 0, recipe and shape from the index */
+	long m = idx - count_main(tier) - NPARTL;
+	g_m_nf = 3 + vf_digit(&m, 2);
+	int recipe_m = vf_digit(&m, NRECIPE);
+	idx = ((((((((m * NAB + 0) * NRECIPE + recipe_m) * NEV + 0) * NAV + 0)
+			    * NPV + 0) * NKV + 1) * nnf(tier) + 0)
+		* nnet(tier) + 0) * NFILL + 0;
+    } else if (idx >= count_main(tier)) {
 	unsigned long mk = vf_exec_begin();
 	run_l(idx - count_main(tier), r);
 	vf_exec_end(r, mk);
@@ -193,6 +217,8 @@ static void run(int tier, long idx, vf_result *r)
     int fill = fillers[vf_digit(&idx, NFILL)];
     int net = vf_digit(&idx, nnet(tier));
     int nf = vf_digit(&idx, nnf(tier)) + 1;
+    if (g_m_nf > 0)
+	nf = g_m_nf;
     int kv = vf_digit(&idx, NKV);
     int pv = vf_digit(&idx, NPV);
     int av = vf_digit(&idx, NAV);
@@ -236,7 +262,9 @@ static void run(int tier, long idx, vf_result *r)
 	return;
     }
     cs_describe(&sc, desc, sizeof(desc));
-    vf_desc(r, "net=%d ev=%d av=%d pv=%d kv=%d%s first-handle=%d %s", net, ev,
+    vf_desc(r, "%snet=%d ev=%d av=%d pv=%d kv=%d%s first-handle=%d %s",
+	    g_m_nf > 0 ? "part M (tables of the calibration's point count and "
+	    "end points, other points between) " : "", net, ev,
 	    av, pv, kv, real_scalars ? " (real scalars)" : "", 3 + fill, desc);
 
     long double margin;
@@ -262,7 +290,7 @@ static void run(int tier, long idx, vf_result *r)
 		    "failed: %s", elog.count ? elog.msg[0] : "?");
 	    goto out;
 	}
-    cs_vector_on_cal = pv;	/* half of the cases: knots on the grid */
+    cs_vector_on_cal = g_m_nf > 0 ? 2 : pv;	/* half: knots on the grid */
     int mprc = cs_make_params(vcp, &sc);
     cs_vector_on_cal = 0;
     if (mprc != 0) {
